@@ -3,6 +3,7 @@
 -/
 import SonicModel.Lemmas.GetRefine
 import SonicModel.Lemmas.SpecBound
+import SonicModel.Lemmas.BlockProof
 namespace Sonic.Thm.C10
 open Sonic Gen Impl Spec
 
@@ -78,5 +79,31 @@ def ex1 : Buf := #[123, 34, 97, 34, 58, 91, 49, 44, 123, 34, 98, 34, 58, 34, 120
 example : lookup ex1 [.key [97], .idx 1, .key [98]] = .found 13 16 := by decide +kernel
 example : getChecked ex1.size ex1 0 [.key [97], .idx 1, .key [98]] = .found 13 16 := by decide +kernel
 example : lookup ex1 [.key [99]] = .missing := by decide +kernel
+
+
+/-! ### the unchecked lookups skip containers with a bit-parallel scanner -/
+
+/-- **`skip_container` (the bit-parallel scanner behind `get_unchecked`, `get_many_unchecked` and the
+    unchecked iterators) is the scalar scan**: for every text after an opening bracket — well-formed or
+    not — the block algorithm (64 bytes at a time: escape mask by carry-propagating addition, in-string
+    mask by prefix xor, brackets matched by popcount over the closing-bracket bits, carries between
+    blocks, zero-padded last block) consumes exactly the number of bytes that walking the text byte by
+    byte with "backslash escapes the next byte, an unescaped quote toggles the string state, brackets
+    count outside strings" consumes, and reports end-of-input exactly when that does -/
+theorem unchecked_container_skip_is_scalar_scan (left right : UInt8) (hne : left ≠ right) (hr : right ≠ 0)
+    (data : List UInt8) :
+    Block.skipContainer (data.length / 64 + 1) data Block.St.init left right 0 =
+      Spec.skipContainerScalar left right data :=
+  Block.skipContainer_eq_scalar left right hne hr data
+
+/-- one block, with any incoming carries -/
+theorem unchecked_container_block (bl : List UInt8) (hl : bl.length = 64) (st : Block.St) (hg : Block.Good st)
+    (left right : UInt8) (hne : left ≠ right) :
+    (Block.containerBlock bl st left right).1 = (Spec.scan left right bl (Block.dec st)).1 :=
+  (Block.containerBlock_spec bl hl st hg left right hne).1
+
+/-- non-vacuity: `"a}\"{" : [ { } ] } tail` after `{` — the brace inside the string and the escaped quote do not count -/
+example : Spec.skipContainerScalar 123 125 [34, 97, 125, 92, 34, 123, 34, 58, 91, 123, 125, 93, 125, 32, 125] = some 13 := by
+  decide
 
 end Sonic.Thm.C10
